@@ -17,6 +17,7 @@ import EmsModel.Gen.Tables
 `classes <lo> <hi>`                           → `cp=d<val>` / `cp=s` for every digit / blank code point in [lo, hi), or `-`
 `cmdname <module name text>`                  → sub-command name as text
 `accepts <text>`                              → `0` | `1` (the text, in its entirety, is in the language of `bounds_re`)
+`choices <format|missing-points>`             → the option's choices, comma separated
 `digit <code point>`                          → value | `-`
 `space <code point>`                          → `0` | `1`
 `double <p/q>`                                → nearest binary64 as `p/q`
@@ -201,6 +202,8 @@ def step (line : String) : String :=
     match parseText? t with
     | some s => propcheck s
     | none => "BAD"
+  | ["choices", "format"] => joinWith "," formatChoices
+  | ["choices", "missing-points"] => joinWith "," missingPointPolicies
   | ["pattern"] => s!"{boundsAst.pattern} flags={boundsFlags}"
   | _ => "BAD"
 
